@@ -111,7 +111,7 @@ pub fn run(ctx: &Ctx, replay: Option<&J>) -> CheckResult {
         return CheckResult { evidence: ev, rule, assumptions, violations: vs };
     }
     let golden_all = crate::pool::golden_frames();
-    let per_type = ctx.n(25_000, 600_000);
+    let per_type = ctx.n(25_000, 2_000_000);
     // supported numbers + some unsupported ones
     let mut numbers: Vec<u16> = MSG_TABLE.iter().map(|r| r.number).collect();
     numbers.extend([0u16, 1, 1000, 1018, 1028, 1036, 1070, 1078, 1138, 1229, 1231, 1305, 4095]);
@@ -170,7 +170,7 @@ pub fn run(ctx: &Ctx, replay: Option<&J>) -> CheckResult {
     }
     ev.notes.push("generator/outcome class counters are sampled (1 in 16 evaluations)".into());
     // raw streams
-    let nstreams = ctx.n(200_000, 5_000_000);
+    let nstreams = ctx.n(200_000, 20_000_000);
     let supported: Vec<u16> = MSG_TABLE.iter().map(|r| r.number).collect();
     let (sev, svs) = par_shards(32, |shard| {
         let mut ev = Evidence::new();
